@@ -5,7 +5,9 @@ multiply program paths (a plain `if` on a symbolic value forks the path; `&`, `|
 
 
 def bnot(x):
-    return (not x) if type(x) is bool else (x == False)  # noqa: E712
+    # NB: no type test here -- under CrossHair type()/isinstance() report python types for
+    # symbolic values, and `not x` would fork.  `x == False` is right for both.
+    return x == False  # noqa: E712
 
 
 def band(*xs):
@@ -38,8 +40,6 @@ def bany(it):
 
 def ite(c, a, b):
     """integer if-then-else without forking"""
-    if type(c) is bool:
-        return a if c else b
     return b + (a - b) * c
 
 
